@@ -12,6 +12,7 @@ import (
 	"strconv"
 	"strings"
 	"sync"
+	"sync/atomic"
 	"time"
 
 	webp "github.com/deepteams/webp"
@@ -22,6 +23,22 @@ import (
 func init() {
 	suites["c05"] = suiteC05
 	suites["c05-child"] = suiteC05Child
+	replayers["c05"] = replayC05
+}
+
+// replayC05 re-runs all entry points on the literal input of a finding (with the in-process deadline).
+func replayC05(in map[string]any) int {
+	hs, _ := in["hex"].(string)
+	data := unhx(hs)
+	res, pm := guardT(func() string { return c05One(data) })
+	fmt.Printf("go: %s %s\n", res, pm)
+	if res == "hang" {
+		fmt.Printf("entry point %v did not return within %v\n", c05Entry.Load(), hangLimit)
+	}
+	if res == "hang" || res == "panic" || strings.HasPrefix(res, "VIOL") {
+		return 1
+	}
+	return 0
 }
 
 // payloadMutate flips bits/bytes inside chunk payloads only (container sizes stay consistent),
@@ -266,7 +283,12 @@ func suiteC05(rep *Report) error {
 				Input: map[string]any{"op": "c05", "hex": hx(in.data)}})
 		case "crash", "hang":
 			rep.Eval(true, in.data)
-			rep.Add(Finding{Kind: "property", Property: "C05", Signature: r.status + ":" + panicClass(r.detail), Detail: fmt.Sprintf("child process %s on this input: %s (%s, %d bytes)", r.status, r.detail, in.kind, len(in.data)),
+			sig := r.status + ":" + panicClass(r.detail)
+			if r.status == "hang" {
+				// "C05-HANG in <entry>: input ..." -> hang:<entry>
+				sig = "hang:" + strings.TrimSuffix(strings.SplitN(strings.TrimPrefix(r.detail, "C05-HANG in "), " ", 2)[0], ":")
+			}
+			rep.Add(Finding{Kind: "property", Property: "C05", Signature: sig, Detail: fmt.Sprintf("child process %s on this input: %s (%s, %d bytes)", r.status, r.detail, in.kind, len(in.data)),
 				Input: map[string]any{"op": "c05", "hex": hx(in.data)}})
 		default:
 			rep.Count("not-run")
@@ -396,7 +418,7 @@ func suiteC05Child(rep *Report) error {
 			c, st := cur, curStart
 			mu.Unlock()
 			if c >= 0 && time.Since(st) > limit {
-				fmt.Fprintf(os.Stderr, "C05-HANG input %d still running after %v\n", c, limit)
+				fmt.Fprintf(os.Stderr, "C05-HANG in %s: input %d still running after %v\n", c05Entry.Load().(string), c, limit)
 				os.Exit(3)
 			}
 		}
@@ -423,6 +445,11 @@ func suiteC05Child(rep *Report) error {
 	}
 	return nil
 }
+
+// c05Entry names the entry point the child is in (for the watchdog's message).
+var c05Entry atomic.Value
+
+func init() { c05Entry.Store("?") }
 
 // c05One runs all entry points on one input; returns "acc=0|1 ..." or "VIOL <signature> <detail>".
 func c05One(data []byte) string {
@@ -452,6 +479,7 @@ func c05One(data []byte) string {
 		if viol != "" {
 			return
 		}
+		c05Entry.Store(name)
 		s, pm := guard(f)
 		if s == "panic" {
 			viol = "VIOL panic:" + name + ":" + panicClass(pm) + " " + pm
